@@ -32,18 +32,27 @@ Case(kind, p) == [kind |-> kind, p |-> p]
 AllCases == {Case(kind, p) : kind \in DeriveKinds, p \in Patterns}
 
 ASSUME \A p \in Patterns : IsPattern(p)
-\* the corpus tells the rule from numbering by position, for every kind
+\* the corpus tells the rule from numbering by position
 ASSUME \E p \in Patterns : PositionalIds(p) # AssignIds(p)
+
+\* evaluated once (constant definitions): the expected description of every derived type of the corpus
+CanonOf == [c \in AllCases |-> DeriveCanon(c.kind, c.p)]
+AssignOf == [p \in Patterns |-> AssignIds(p)]
 
 -----------------------------------------------------------------------------
 VARIABLE cs
-\* a trivial initial state: all evaluation happens in the worker threads
+\* a trivial initial state, then one state per kind (the empty pattern), then the other patterns of that kind: the
+\* evaluation is spread over the worker threads
 Start == Case("start", <<>>)
 Init == cs = Start
-Next == cs = Start /\ cs' \in AllCases
+Next == \/ /\ cs = Start
+           /\ cs' \in {Case(kind, <<>>) : kind \in DeriveKinds}
+        \/ /\ cs # Start /\ cs.p = <<>>
+           /\ cs' \in {c \in AllCases : c.kind = cs.kind} \ {cs}
 Spec == Init /\ [][Next]_cs
 
-\* the recursive rule and its closed form agree; explicit ids are kept, an implicit item follows its predecessor
+\* the recursive rule and its closed form agree; explicit ids are kept, an implicit item follows its predecessor;
+\* writing the assignment out is a fixed point
 Inv_Rule == cs # Start =>
   LET p == cs.p
       a == AssignIds(p) IN
@@ -52,19 +61,20 @@ Inv_Rule == cs # Start =>
   /\ \A i \in 1 .. Len(p) : /\ p[i] # NoId => a[i] = p[i]
                             /\ p[i] = NoId => a[i] = IF i = 1 THEN 0 ELSE a[i - 1] + 1
   /\ AssignIds(a) = a
+  /\ a \in Patterns /\ AllExplicit(a)
 
-\* the derived type is a well-formed definition
-Inv_WFD == cs # Start => LET P == DeriveUniverse(cs.kind, cs.p) IN WFUniverse(P) /\ WFRefs(P) /\ AlgoId(P, RefOf(P.defs[1])) = CanonId(P, RefOf(P.defs[1]))
+\* the derived type is a well-formed definition, and the worklist of compute_from_dyn collects its references
+Inv_WFD == cs # Start => LET P == DeriveUniverse(cs.kind, cs.p) IN
+  WFUniverse(P) /\ WFRefs(P) /\ AlgoId(P, RefOf(P.defs[1])) = CanonId(P, RefOf(P.defs[1]))
 
 \* writing all ids out does not change the type; a named struct and a tuple struct of one pattern are one type
 Inv_Explicit == cs # Start =>
-  /\ DeriveCanon(cs.kind, AssignIds(cs.p)) = DeriveCanon(cs.kind, cs.p)
-  /\ cs.kind = "struct" => DeriveCanon("tstruct", cs.p) = DeriveCanon("struct", cs.p)
+  /\ CanonOf[Case(cs.kind, AssignIds(cs.p))] = CanonOf[cs]
+  /\ cs.kind = "struct" => CanonOf[Case("tstruct", cs.p)] = CanonOf[cs]
 
-\* across the corpus: equal CanonId <=> same layout kind and equal id assignment
+\* across the whole corpus: equal CanonId <=> same layout kind and equal id assignment
 Inv_Classes == cs # Start =>
-  \A k \in DeriveKinds : \A q \in Patterns :
-    (DeriveCanon(k, q) = DeriveCanon(cs.kind, cs.p)) <=> (LayoutKind(k) = LayoutKind(cs.kind) /\ AssignIds(q) = AssignIds(cs.p))
+  \A c \in AllCases : (CanonOf[c] = CanonOf[cs]) <=> (LayoutKind(c.kind) = LayoutKind(cs.kind) /\ AssignOf[c.p] = AssignOf[cs.p])
 
 -----------------------------------------------------------------------------
 RECURSIVE PatString(_)
@@ -75,7 +85,7 @@ CaseId(c) == "derive/" \o c.kind \o "/" \o PatString(c.p)
 
 Vector(c) ==
   [id |-> CaseId(c), derive |-> TRUE, kind |-> c.kind, pat |-> c.p, ids |-> AssignIds(c.p),
-   def |-> DeriveDef(c.kind, c.p), canon |-> DeriveCanon(c.kind, c.p),
+   def |-> DeriveDef(c.kind, c.p), canon |-> CanonOf[c],
    positional |-> PositionalIds(c.p) = AssignIds(c.p), explicit |-> AllExplicit(c.p)]
 
 Emit == IF TLCGet("stats").distinct > 0 /\ "DVECTORS" \in DOMAIN IOEnv /\ IOEnv.DVECTORS # ""
